@@ -23,7 +23,8 @@
    portfolio weights, portfolio returns (section 5: the same three guards, the same shape of
    statements), format and infer (section 6: the syntax-level commands end in one of their proper
    results, never in CmdPanic / CmdOutOfFuel / InferBad - C07_fuel, C08_cmd_total and C15_total at
-   the command level). *)
+   the command level).  "Any flag values": section 7 (every value parser total, the argument list,
+   cobra's validation) and section 8 (regexp.Compile on every string: Model/RxSyntax.v). *)
 From Coq Require Import ZArith QArith List Bool.
 From Knut Require Import Model.Str Model.Dec Model.Date Model.Account Model.Ledger Model.Journal
      Model.Pipeline Model.Table Model.Cli Model.Loader Model.CliSafe Spec.FailSpec Proofs.LoaderProofs Proofs.NoPanic.
